@@ -307,6 +307,11 @@ def _parse_body(f, body):
     stmts = []
     for a, t in f.args:
         f.locals[a] = t
+    f.debug = {}
+    for line in body:
+        md = re.match(r'^\s*debug (\w+) => _(\d+);$', line)
+        if md and md.group(1) not in f.debug:
+            f.debug[md.group(1)] = int(md.group(2))
     k = 0
     while k < len(body):
         line = body[k]
@@ -495,3 +500,78 @@ def norm_key(f):
     sig = '(' + ', '.join(IMPL_AT.sub('<impl>', re.sub(r'\{closure@[^}]*\}', '{closure}', t)) for _, t in f.args) + ') -> ' + \
         IMPL_AT.sub('<impl>', re.sub(r'\{closure@[^}]*\}', '{closure}', f.ret))
     return (files[0] if files else '', short, sig)
+
+
+def successors(term):
+    k = term[0]
+    if k == 'goto':
+        return [term[1]]
+    if k == 'switch':
+        out = [b for _, b in term[2]]
+        if term[3] is not None:
+            out.append(term[3])
+        return out
+    if k == 'assert':
+        return [term[3]] if term[3] is not None else []
+    if k == 'call':
+        return [term[4]] if term[4] is not None else []
+    return []
+
+def loops(f):
+    """natural loops of the CFG: dict head -> (set of blocks, set of locals assigned in them)"""
+    succ = {b: successors(t) for b, (_, t) in f.blocks.items()}
+    color = {}
+    back = []
+    stack = [(0, iter(succ.get(0, [])))]
+    color[0] = 1
+    while stack:
+        b, it = stack[-1]
+        nxt = None
+        for s_ in it:
+            if s_ not in f.blocks:
+                continue
+            if color.get(s_, 0) == 0:
+                nxt = s_
+                break
+            if color.get(s_) == 1:
+                back.append((b, s_))
+        if nxt is None:
+            color[b] = 2
+            stack.pop()
+        else:
+            color[nxt] = 1
+            stack.append((nxt, iter(succ.get(nxt, []))))
+    pred = {}
+    for b, ss in succ.items():
+        for s_ in ss:
+            pred.setdefault(s_, []).append(b)
+    out = {}
+    for t, h in back:
+        nodes = out.setdefault(h, [set([h]), set()])[0]
+        work = [t]
+        while work:
+            n = work.pop()
+            if n in nodes:
+                continue
+            nodes.add(n)
+            work.extend(pred.get(n, []))
+    for h, (nodes, assigned) in out.items():
+        for b in nodes:
+            stmts, term = f.blocks[b]
+            for s_ in stmts + [term]:
+                if s_[0] in ('assign', 'call'):
+                    pl = s_[1]
+                    while pl[0] in ('field', 'downcast', 'index'):
+                        pl = pl[1]
+                    if pl[0] == 'local':
+                        assigned.add(pl[1])
+                    elif pl[0] == 'deref':
+                        assigned.add(('deref',))
+                # calls taking &mut locals modify them
+                if s_[0] == 'assign' and s_[2][0] == 'mutref':
+                    pl = s_[2][1]
+                    while pl[0] in ('field', 'downcast', 'index'):
+                        pl = pl[1]
+                    if pl[0] == 'local':
+                        assigned.add(pl[1])
+    return {h: (nodes, assigned) for h, (nodes, assigned) in out.items()}
